@@ -526,6 +526,8 @@ def iterate(eng, v, allow_symbolic=False):
             return SymbolicRange(v.start, v.count(), v.step)
         raise Unsupported("loop over a symbolic range without an invariant")
     if isinstance(v, I.GeneratorValue):
+        if getattr(v, "_lazy", None) is not None:
+            return iterate(eng, v._lazy, allow_symbolic)
         items = v.items[v.pos:]
         v.pos = len(v.items)
         return items
